@@ -1,14 +1,195 @@
 import Ebu.Proofs.ConcDead
 /-!
-KNOWN FINDING (C08): the context check of a synchronous handler precedes the wait for the Sequential mutex.
+C08 under concurrency: the context check of a synchronous handler is repeated after the wait for the Sequential mutex.
 
 `PublishContext` checks the publish context, then calls `callHandlerWithContext`, which – for a Sequential handler –
-waits for the handler's mutex.  If the context is cancelled during that wait, the handler is started all the same once
-the mutex is free: a synchronous handler is started after the context of its publish was cancelled.  M2 contains this
-(the `.lock` step does not look at the context again), and the schedule below exhibits it.
+waits for the handler's mutex.  The context may be cancelled during that wait; the code (after the fix) looks at the
+context again once it holds the mutex and skips the handler if it is cancelled.  M2 transcribes this: the `.lock` step
+checks `sh.live f.ctx` before it enters.  Hence no synchronous handler is ever entered for a publish whose context is
+cancelled (`sync_entry_only_if_live`), and the schedule that used to exhibit the late entry now skips the handler
+(`cancelled_waiter_is_skipped`).
 -/
 namespace Ebu.Conc.CancelWitness
-open Ebu.Conc Ebu.Conc.TraceExample
+open Ebu.Conc Ebu.Conc.Inv Ebu.Conc.TraceExample
+
+/-- the event is a synchronous entry -/
+def SE (e : Obs) : Prop := ∃ rid ty v, e = Obs.enter rid ty v false
+
+/-- every synchronous entry the dispatch loop of activation `f` adds to `obs` is made with the context of `f` live -/
+theorem syncEnt_all (fuel : Nat) : ∀ (sh : Shared) (th : Thread) (f : Frame) (fs : List Frame) (obs : List Obs),
+    (∀ e ∈ (dispatch sh th f fs obs fuel).obs, SE e → e ∈ obs ∨ sh.live f.ctx = true) ∧
+    (∀ r0, ∀ e ∈ (afterFilter sh th f fs r0 obs fuel).obs, SE e → e ∈ obs ∨ sh.live f.ctx = true) ∧
+    (∀ r0, ∀ e ∈ (afterClaim sh th f fs r0 obs fuel).obs, SE e → e ∈ obs ∨ sh.live f.ctx = true) := by
+  induction fuel with
+  | zero =>
+    intro sh th f fs obs
+    refine ⟨?_, fun r0 => ?_, fun r0 => ?_⟩
+    · unfold dispatch; exact fun e he _ => .inl he
+    · unfold afterFilter; exact fun e he _ => .inl he
+    · unfold afterClaim; exact fun e he _ => .inl he
+  | succ fuel ih =>
+    intro sh th f fs obs
+    refine ⟨?_, fun r0 => ?_, fun r0 => ?_⟩
+    · unfold dispatch
+      split
+      · split
+        · intro e he hs
+          simp only [List.mem_append, List.mem_singleton] at he
+          rcases he with he | rfl
+          · exact .inl he
+          · obtain ⟨_, _, _, h⟩ := hs; cases h
+        · exact fun e he _ => .inl he
+      · rename_i r rest hrest
+        split
+        · exact fun e he _ => .inl he
+        · exact (ih sh th { f with rest := rest } fs obs).2.1 r
+    · unfold afterFilter
+      split
+      · exact (ih _ _ _ _ _).1
+      · split
+        · split
+          · exact (ih _ _ _ _ _).1
+          · exact fun e he _ => .inl he
+        · exact (ih _ _ _ _ _).2.2 r0
+    · unfold afterClaim
+      split
+      · exact fun e he _ => .inl he
+      · split
+        · exact (ih _ _ _ _ _).1
+        · rename_i hl
+          split
+          · exact fun e he _ => .inl he
+          · intro e he _
+            simp only [List.mem_append, List.mem_singleton] at he
+            rcases he with he | _
+            · exact .inl he
+            · exact .inr (by simpa using hl)
+
+theorem dispatch_sync {sh : Shared} {th : Thread} {f : Frame} {fs : List Frame} {obs : List Obs} {fuel : Nat} {e : Obs}
+    (he : e ∈ (dispatch sh th f fs obs fuel).obs) (hs : SE e) (hno : ∀ e ∈ obs, ¬ SE e) : sh.live f.ctx = true := by
+  rcases (syncEnt_all fuel sh th f fs obs).1 e he hs with h | h
+  · exact absurd hs (hno e h)
+  · exact h
+
+theorem afterFilter_sync {sh : Shared} {th : Thread} {f : Frame} {fs : List Frame} {r0 : Reg} {obs : List Obs} {fuel : Nat}
+    {e : Obs} (he : e ∈ (afterFilter sh th f fs r0 obs fuel).obs) (hs : SE e) (hno : ∀ e ∈ obs, ¬ SE e) :
+    sh.live f.ctx = true := by
+  rcases (syncEnt_all fuel sh th f fs obs).2.1 r0 e he hs with h | h
+  · exact absurd hs (hno e h)
+  · exact h
+
+theorem afterClaim_sync {sh : Shared} {th : Thread} {f : Frame} {fs : List Frame} {r0 : Reg} {obs : List Obs} {fuel : Nat}
+    {e : Obs} (he : e ∈ (afterClaim sh th f fs r0 obs fuel).obs) (hs : SE e) (hno : ∀ e ∈ obs, ¬ SE e) :
+    sh.live f.ctx = true := by
+  rcases (syncEnt_all fuel sh th f fs obs).2.2 r0 e he hs with h | h
+  · exact absurd hs (hno e h)
+  · exact h
+
+/-- C08 under concurrency: a SYNCHRONOUS handler is never entered for a publish whose context is cancelled – also when
+its goroutine had to wait for the handler's Sequential mutex: every step that emits a synchronous entry is taken by a
+goroutine whose innermost publish context is live before the step -/
+theorem sync_entry_only_if_live (sh : Shared) (th : Thread) (o : Out) (h : step sh th = some o)
+    (rid ty v : Nat) (he : Obs.enter rid ty v false ∈ o.obs) :
+    ∃ f fs, th.frames = f :: fs ∧ sh.live f.ctx = true := by
+  have hse : SE (Obs.enter rid ty v false) := ⟨rid, ty, v, rfl⟩
+  unfold step at h
+  split at h
+  · cases h
+  split at h
+  · cases h
+  · -- op
+    split at h
+    · split at h
+      · cases h; simp at he
+      · cases h; simp at he
+      · cases h
+    · split at h
+      · cases h; simp at he
+      · split at h <;> cases h <;> simp at he
+  · -- snap
+    split at h
+    · rename_i f fs hfr
+      cases h
+      exact ⟨f, fs, hfr, dispatch_sync he hse (by simp)⟩
+    · cases h
+  · -- filter
+    split at h
+    · rename_i f fs hfr
+      split at h
+      · cases h
+        exact ⟨f, fs, hfr, afterFilter_sync he hse (by simp [SE])⟩
+      · cases h
+        exact ⟨f, fs, hfr, dispatch_sync he hse (by simp [SE])⟩
+    · cases h
+  · -- claimed
+    split at h
+    · rename_i f fs hfr
+      cases h
+      exact ⟨f, fs, hfr, afterClaim_sync he hse (by simp)⟩
+    · cases h
+  · -- spawn
+    split at h
+    · rename_i f fs hfr
+      cases h
+      exact ⟨f, fs, hfr, dispatch_sync he hse (by simp [SE])⟩
+    · cases h
+  · -- lock
+    split at h
+    · rename_i f fs hfr
+      split at h
+      · split at h
+        · cases h; simp at he
+        · cases h
+          exact ⟨f, _, hfr, dispatch_sync he hse (by simp)⟩
+      · rename_i hl
+        cases h
+        exact ⟨f, fs, hfr, by simpa using hl⟩
+    · cases h
+  · -- enter
+    split at h
+    · split at h
+      · cases h; simp at he
+      · cases h; simp at he
+    · cases h
+  · -- exit
+    rename_i r hpc
+    have hlive : ∀ c, (if r.seq = true then { sh with held := sh.held.erase r.rid } else sh).live c = sh.live c := by
+      intro c; split
+      · exact live_congr rfl c
+      · rfl
+    dsimp only at h
+    split at h
+    · cases h; simp at he
+    · rename_i f fs hfr _
+      cases h
+      have hl := dispatch_sync he hse (by simp)
+      exact ⟨f, fs, hfr, (hlive _).symm.trans hl⟩
+    · cases h
+  · -- retire
+    split at h
+    · cases h; simp at he
+    · cases h
+  · -- retired
+    split at h
+    · cases h; simp at he
+    · cases h
+  · -- astart
+    split at h
+    · split at h
+      · cases h; simp at he
+      · split at h
+        · cases h; simp at he
+        · cases h; simp at he
+    · cases h
+  · -- turn
+    split at h
+    · dsimp only at h
+      split at h <;> cases h <;> simp at he
+    · cases h
+  · -- aend
+    cases h; simp at he
+
+/-! ### the schedule of the former witness: the waiter now skips the handler -/
 
 /-- goroutine 0 subscribes a synchronous Sequential handler and publishes; goroutine 1 publishes with the cancellable
 context 1; goroutine 2 cancels it -/
@@ -29,14 +210,15 @@ theorem cwRuns2 : (runT cwState [1]).isSome = true := by decide +kernel
 
 def cwAfter : SysT := (runT cwState [1]).get cwRuns2
 
-/-- in a reachable state context 1 is cancelled and goroutine 1 – whose publish carries that context – is waiting for the
-Sequential mutex; its next step ENTERS the handler with the event of the cancelled publish -/
-theorem sequential_wait_outlives_cancellation :
-    ReachableT cwProgs cwState ∧ cwState.s.sh.cancelled = [1] ∧
+/-- the state the schedule leads to: reachable, context 1 is cancelled, goroutine 1 – whose publish carries that context –
+is parked at the Sequential mutex of registration 0 (which is free again), and `cwAfter` is the state after its next step -/
+theorem cancelled_waiter_state :
+    ReachableT cwProgs cwState ∧ cwState.s.sh.cancelled = [1] ∧ cwState.s.sh.held = [] ∧
     (cwState.s.ths.map (fun th => th.frames.map (·.ctx))) = [[], [Ctx.shared 1], []] ∧
-    cwState.stepAt 1 = some cwAfter ∧
-    entriesOfReg 0 cwAfter.tr = entriesOfReg 0 cwState.tr ++ [(1, Obs.enter 0 1 2 false)] := by
-  refine ⟨runT_reachable .init (Option.some_get cwRuns).symm, by decide +kernel, by decide +kernel, ?_, by decide +kernel⟩
+    (cwState.s.ths.map (fun th => match th.pc with | .lock r a => some (r.rid, a) | _ => none)) = [none, some (0, false), none] ∧
+    cwState.stepAt 1 = some cwAfter := by
+  refine ⟨runT_reachable .init (Option.some_get cwRuns).symm, by decide +kernel, by decide +kernel, by decide +kernel,
+    by decide +kernel, ?_⟩
   have hsome : (cwState.stepAt 1).isSome = true := by decide +kernel
   cases hs : cwState.stepAt 1 with
   | none => rw [hs] at hsome; cases hsome
@@ -44,5 +226,9 @@ theorem sequential_wait_outlives_cancellation :
     have h2 : runT cwState [1] = some y := by simp [runT, hs]
     have : cwAfter = y := by simp only [cwAfter, h2, Option.get_some]
     rw [this]
+
+/-- in that state goroutine 1's next step – it gets the mutex of the handler, with the context of its publish cancelled in
+the meantime – produces NO entry: the handler is skipped -/
+theorem cancelled_waiter_is_skipped : entriesOfReg 0 cwAfter.tr = entriesOfReg 0 cwState.tr := by decide +kernel
 
 end Ebu.Conc.CancelWitness
